@@ -170,11 +170,26 @@ def gen_doc(rng, specials=False, imports=True, resets=True):
         if c in kids:
             return [ind + '<component_ref%s>' % a] + sum([ref(k, ind + '  ') for k in kids[c]], []) + [ind + '</component_ref>']
         return [ind + '<component_ref%s/>' % a]
+    # an imported component may encapsulate components of the importing model: adopt local components that take part in
+    # no connection (their interfaces would have to change) and have no children
+    connected = {x for (a, b) in conns for x in (a, b)} | {a for a, b, _ in extra_conns}
+    free = [c for c in comps if c not in parent and c not in kids and c not in connected]
+    imp_kids = {}
+    for ic in imp_comps:
+        if free and rng.random() < 0.3:
+            for _ in range(rng.randint(1, 2)):
+                if free:
+                    imp_kids.setdefault(ic, []).append(free.pop(rng.randrange(len(free))))
     roots = [c for c in comps if c not in parent and c in kids]
-    if roots:
+    if roots or imp_kids:
         out.append('  <encapsulation%s>' % idatt(0.4))
         for r in roots:
             out += ref(r, '    ')
+        for ic, ks in imp_kids.items():
+            out.append('    <component_ref%s%s>' % (att('component', ic), idatt(0.3)))
+            for k in ks:
+                out += ref(k, '      ')
+            out.append('    </component_ref>')
         out.append('  </encapsulation>')
     out.append('</model>')
     return '\n'.join(out) + '\n'
